@@ -279,6 +279,22 @@ def missing_cases(draw):
     return {'rec': rec, 'lay2': draw(gen.relayout(cols)), 'op': op}
 
 
+ELEMENT_OPS = ('isin', 'via_str_dt', 'clip', 'unique', 'astype')
+
+
+@st.composite
+def element_cases(draw):
+    """Element-wise operations that treat a 2-D block and its columns by different routes (membership tests against the frame's
+    own cells, string / datetime helpers, clip, unique, astype), on frames of date / time-delta / narrow / text columns where
+    neighbouring columns often share a dtype (so that wide blocks exist): same differential over layouts as `layout_diff`."""
+    op = draw(ops.frame_op_strategy(only=ELEMENT_OPS))
+    fam = draw(st.sampled_from([('M8[D]', 'M8[D]', '<U3'), ('M8[ns]', 'm8[ns]', 'M8[ns]'), ('int8', 'int8', 'float32'), ('<U3', '<U3', 'M8[D]', 'int64'),
+                                ('M8[D]', 'M8[D]', 'object', 'bool')]))
+    rec = draw(gen.frame_recipe(min_rows=1, max_rows=4, min_cols=2, max_cols=6, kinds=fam, index_kinds=('auto', 'str'), column_kinds=('auto', 'str')))
+    cols = gen.block_columns(rec['blocks'])
+    return {'rec': rec, 'lay2': draw(gen.relayout(cols)), 'op': op}
+
+
 @st.composite
 def astype_cases(draw):
     """astype[key](dtype) where the requested dtype is one the frame already holds, keys with gaps (stepped slices,
@@ -453,6 +469,8 @@ SUBS = [
         rule='same columns, 3 layouts, one op: equal observations'),
     Sub('missing_layouts', missing_cases(), check_diff, quick=4000, thorough=32000, tag=tag_diff,
         rule='fills / drops / shifts / reductions on frames rich in missing values: same columns, 3 layouts, equal observations'),
+    Sub('element_layouts', element_cases(), check_diff, quick=2400, thorough=16000, tag=tag_diff,
+        rule='isin (against own cells) / via_str / via_dt / clip / unique / astype on date, time-delta, narrow and text columns: same columns, 3 layouts, equal observations'),
     Sub('line_layouts', None, check_diff, quick=0, thorough=0, tag=tag_diff, enum=enum_lines,
         rule='complete enumeration: one- and two-row frames over 4 column kinds x every reduction x skipna x axis, 3 layouts, equal observations'),
     Sub('astype_layouts', astype_cases(), check_astype, quick=3200, thorough=24000,
